@@ -37,7 +37,7 @@ impl Property for C20 {
     }
     fn tape_len(&self, tier: Tier) -> usize { tier.pick(250, 400) }
     fn cases(&self, tier: Tier) -> u32 { tier.pick(120_000, 3_000_000) }
-    fn required_labels(&self, _tier: Tier) -> Vec<&'static str> { vec!["fmt:anm", "fmt:std", "fmt:msg", "fmt:ecl", "sprite-ref", "script-ref", "sub-ref", "timeline-sub-ref", "instance-ref", "table-ref", "default-entry", "explicit-id", "decreasing-id", "dup-name-same-id", "sprite-script-shared-name", "forward-ref", "must-reject:unknown-name", "must-reject:conflict"] }
+    fn required_labels(&self, _tier: Tier) -> Vec<&'static str> { vec!["fmt:anm", "fmt:std", "fmt:msg", "fmt:ecl", "sprite-ref", "script-ref", "sub-ref", "timeline-sub-ref", "instance-ref", "table-ref", "default-entry", "empty-table-slot", "explicit-id", "decreasing-id", "dup-name-same-id", "sprite-script-shared-name", "forward-ref", "must-reject:unknown-name", "must-reject:conflict"] }
     fn max_discard_fraction(&self) -> f64 { 0.1 }
 
     fn generate(&self, tape: &mut Tape, _tier: Tier, _known: &Known) -> Value {
@@ -156,7 +156,16 @@ impl Property for C20 {
                 let nscripts = 1 + tape.below(4);
                 let mut table = vec![]; let mut refs = vec![]; let mut key = 0usize; let mut used = vec![false; nscripts];
                 let nkeys = nscripts + tape.below(3);
+                let mut null_entries = false;
                 for r in 0..nkeys {
+                    if r >= nscripts && tape.chance(1, 4) {
+                        // an explicitly empty slot: offset 0 (and no flags), NOT the default entry
+                        null_entries = true;
+                        table.push(format!("        {}: {{script: 0}}", key));
+                        refs.push(json!({"kind": "table", "key": key, "name": "<empty slot>", "marker": Value::Null}));
+                        key += 1 + if tape.chance(1, 3) { tape.below(3) } else { 0 };
+                        continue;
+                    }
                     let j = if r < nscripts { r } else { tape.below(nscripts) };
                     used[j] = true;
                     let name = if bad.is_some() && tape.chance(1, 3) { "nosuchscript".to_string() } else { format!("scr{}", j) };
@@ -165,6 +174,7 @@ impl Property for C20 {
                     key += 1 + if tape.chance(1, 3) { tape.below(3) } else { 0 };
                 }
                 let mut feats: Vec<&str> = vec![];
+                if null_entries { feats.push("empty-table-slot"); }
                 let default = if tape.chance(1, 2) { feats.push("default-entry"); let j = tape.below(nscripts); table.push(format!("        default: {{script: \"scr{}\"}}", j)); Some(j + 1) } else { None };
                 let max_key = key;
                 let mut text = format!("meta {{\n    table: {{\n{}\n    }},\n}}\n\n", table.join(",\n"));
